@@ -457,7 +457,116 @@ def underflow_witness():
     if worst > 1e-9:
         return (f"secant products underflow: y={c['y']} gives {got} at {c['q']}, standard PCHIP {ref} "
                 f"(relative difference {worst:.2g})")
+    # the same gap in float32 starts at secants ~1e-23: equivariance with the well-scaled data set fails
+    import torch
+    x32 = torch.tensor(c["x"], dtype=torch.float32)
+    yb = torch.tensor([0.0, 1.0, 3.0, 7.0], dtype=torch.float32)
+    q32 = torch.tensor(c["q"], dtype=torch.float32)
+    a = PCHIP1D(x32, yb * 2.0 ** -83)(q32)
+    b = PCHIP1D(x32, yb)(q32) * 2.0 ** -83
+    if not torch.equal(a, b):
+        return (f"secant products underflow in float32: y=2^-83*[0,1,3,7] gives {a.tolist()}, "
+                f"2^-83 * P([0,1,3,7]) = {b.tolist()}")
     return None
+
+
+# ------------------------------------------------------------------ extreme magnitudes (float64 and float32)
+# PCHIP is homogeneous in y. For c = 2^k every operation of the algorithm commutes with the scaling *exactly*
+# (power-of-two scaling commutes with IEEE rounding while nothing overflows, underflows or goes subnormal; all
+# comparisons are sign / ratio tests), so p(c*y) == c*p(y) bit for bit. Base data live on a dyadic lattice
+# (|secant| in [2^-7, 2^7] or 0, widths in [1/4, 4]); the exponent ranges keep every intermediate of the *clean*
+# algorithm (12*secant/h^2 at the top, secant products at the bottom) inside the normal range of the dtype:
+SCALE_RANGE = {"float64": (-480, 960), "float32": (-50, 100)}
+# (secants beyond sqrt(max float): 2^512 / 2^64 are reached from k ~ 520 / 72 upwards; below the lower ends the
+# same-sign mask delta_l*delta_r underflows — that is finding PCHIP-U1, replayed separately.)
+
+
+def gen_scale_case(rng, i):
+    n = rng.choice([3, 4, 5, 6, 8, 12])
+    x = [float(rng.randint(-4, 4))]
+    for _ in range(n - 1):
+        x.append(x[-1] + rng.choice([0.25, 0.5, 1.0, 1.0, 2.0, 4.0]))
+    mode = rng.choice(["mono", "lattice", "flat", "zigzag"])
+    if mode == "mono":
+        s = rng.choice([1.0, -1.0])
+        y = [float(rng.randint(-8, 8)) / 8]
+        for _ in range(n - 1):
+            y.append(y[-1] + s * rng.randint(1, 16) / 8)
+    else:
+        y = [float(rng.randint(-32, 32)) / 8 for _ in range(n)]
+        if mode == "flat":
+            for j in range(1, n):
+                if rng.random() < 0.4:
+                    y[j] = y[j - 1]
+        if mode == "zigzag":
+            y = [abs(v) * (-1) ** j for j, v in enumerate(y)]
+    q = []
+    for j in range(n - 1):
+        q += [x[j] + (x[j + 1] - x[j]) * m / 8 for m in (1, 3, 4, 7)]
+    q += [x[0] - 0.25, x[-1] + 0.25]
+    dtype = "float64" if i % 2 == 0 else "float32"
+    lo, hi = SCALE_RANGE[dtype]
+    k = [hi, lo, hi - rng.randint(0, 40), lo + rng.randint(0, 40), rng.randint(lo, hi),
+         (hi * 6) // 10 + rng.randint(0, 40)][(i // 2) % 6]
+    return dict(x=x, y=y, q=q, k=k, dtype=dtype, xm="dyadic", ym="scale-" + mode, family="scale")
+
+
+def scale_oracle(case):
+    """Knot reproduction, finiteness and exact scale-equivariance p(2^k y) = 2^k p(y) on the real code, in the
+    case's dtype. Returns a failure string or None."""
+    import torch
+    from emu_base.math.pchip_torch import PCHIP1D
+    dt = torch.float64 if case["dtype"] == "float64" else torch.float32
+    c = 2.0 ** case["k"]
+    xt = torch.tensor(case["x"], dtype=dt)
+    y0 = torch.tensor(case["y"], dtype=dt)
+    qt = torch.tensor(case["q"], dtype=dt)
+    y1 = y0 * c
+    tag = f"{case['dtype']}, y = 2^{case['k']} * {case['y']} on x = {case['x']}"
+    if not bool(torch.isfinite(y1).all()):
+        return None                                   # the data themselves left the dtype: not a case
+    v0 = PCHIP1D(xt, y0)(qt)
+    P1 = PCHIP1D(xt, y1)
+    v1 = P1(qt)
+    k1 = P1(xt)
+    if not bool(torch.isfinite(v1).all()) or not bool(torch.isfinite(k1).all()):
+        bad = [(case["q"][j], v) for j, v in enumerate(v1.tolist()) if not math.isfinite(v)]
+        bad += [(case["x"][j], v) for j, v in enumerate(k1.tolist()) if not math.isfinite(v)]
+        return (f"non-finite interpolant for finite data ({tag}): P({bad[0][0]!r}) = {bad[0][1]!r}; "
+                f"{len(bad)} of {len(case['q']) + len(case['x'])} points are inf/nan")
+    rtol = 1e-12 if dt == torch.float64 else 1e-5
+    for j, (a, b) in enumerate(zip(k1.tolist(), y1.tolist())):
+        tol = 0.0 if j < len(case["x"]) - 1 else rtol * (abs(b) + abs(y1[j - 1].item()))
+        if abs(a - b) > tol:
+            return f"knot {j} not reproduced ({tag}): P({case['x'][j]!r}) = {a!r}, y = {b!r}"
+    want = v0 * c
+    if not torch.equal(v1, want):
+        j = next(j for j, (a, b) in enumerate(zip(v1.tolist(), want.tolist())) if a != b)
+        return (f"not scale-equivariant ({tag}): P_cy({case['q'][j]!r}) = {v1[j].item()!r} but "
+                f"2^{case['k']} * P_y = {want[j].item()!r} (must be bit-equal for a power of two)")
+    return None
+
+
+def _ser_scale(case):
+    return {k: case[k] for k in ("x", "y", "q", "k", "dtype", "xm", "ym", "family")}
+
+
+def scale_family(rep, rng, n, stop_at_first=False):
+    """Run `scale_oracle` on n cases; every failure is a concrete failing input."""
+    for i in range(n):
+        case = gen_scale_case(rng, i)
+        try:
+            msg = scale_oracle(case)
+        except Exception as e:
+            msg = f"real PCHIP1D raised {type(e).__name__}: {e} ({case['dtype']}, scale 2^{case['k']})"
+        rep.hist("scale_family", f"{case['dtype']}:2^{(case['k'] // 100) * 100}..")
+        rep.case(key=("scale", case["dtype"], case["k"], tuple(case["x"]), tuple(case["y"])), nontrivial=True,
+                 trace=False)
+        if msg:
+            rep.fail(msg, _ser_scale(case))
+            if stop_at_first:
+                return True
+    return False
 
 
 def _ser(case, extra=None):
@@ -485,11 +594,15 @@ def check(rep: Report, tier: str, seed: int) -> None:
                 "offset), values random / monotone / flat runs / zigzag with zeros / magnitudes 1e-12..1e12 and "
                 "1e-30..1e-20 / constant / flat end intervals / steps / half-integer lattice; queries inside, outside "
                 "both ends, at knots and one ulp beside them; plus malformed inputs, lattice calls of _limit_endpoint "
-                "and _pchip_derivatives, and small rational datasets at Q. non-trivial = at least 3 knots and not "
+                "and _pchip_derivatives, small rational datasets at Q, and dyadic-lattice datasets scaled by 2^k up to 2^960 "
+                "(float64) / 2^100 (float32) and down to 2^-480 / 2^-50. non-trivial = at least 3 knots and not "
                 "constant; distinct = distinct (x, y) bit patterns")
     rep.assumptions = [
         "binary64 rounding is outside the theorems (same definitions over an ordered field); probed by the SciPy "
         "oracle (rel 1e-9 of |y_i| + S(|t| + t^2/h + |t|^3/h^2), S = slope scale of the interval) and by the bit-exact correspondence",
+        "extreme magnitudes: data scaled by 2^k, k in [-480, 960] (float64) / [-50, 100] (float32), must be reproduced at "
+        "the knots, finite and exactly scale-equivariant; below those ranges the secant-product mask underflows "
+        "(finding PCHIP-U1), above them 12*secant/h^2 leaves the dtype",
         "C1 is proved as the algebraic joint conditions (value and formal first derivative agree at every knot), not as "
         "Mathlib's ContDiff",
         "secant products below the binary64 underflow threshold (|delta_l*delta_r| < 1e-300) are not generated",
@@ -570,6 +683,7 @@ def check(rep: Report, tier: str, seed: int) -> None:
         rep.extra["statement_level_disagreements"] = ldis
         rep.extra["rational_disagreements"] = qdis
         rep.extra["exactness"] = "bit-exact (0 ulp, sign of zero ignored) for d, whm arguments, interval indices and values"
+    scale_family(rep, seeded(seed * 7919 + 2020), 240 if tier == "quick" else 6000)
     msg = underflow_witness()
     if msg:
         rep.fail(msg, _ser(UNDERFLOW_WITNESS), klass=UNDERFLOW_CLASS)
@@ -581,6 +695,8 @@ def search(rep: Report, seed: int, n: int) -> None:
     """Failing-input search on the real code only: the oracle on datasets concentrated on the shapes the proofs
     depend on (flat end intervals, flat runs, sign changes next to the ends, 3-5 knots, lattice values)."""
     rng = seeded(seed * 104729 + 20)
+    if scale_family(rep, rng, max(n // 3, 600), stop_at_first=True):
+        return
     for i in range(n):
         if i % 3 == 0:
             k = rng.randint(3, 6)
@@ -612,7 +728,14 @@ def replay(rep: Report, path: str) -> int:
         d = f["data"]
         case = dict(x=d["x"], y=d["y"], q=d["q"])
         try:
-            res = oracle(case)
+            if d.get("family") == "scale":
+                m = scale_oracle(d)
+                res = (m, None) if m else None
+            elif f.get("class") == UNDERFLOW_CLASS:
+                m = underflow_witness()
+                res = (m, None) if m else None
+            else:
+                res = oracle(case)
         except Exception as e:
             res = (f"raised {type(e).__name__}: {e}", None)
         print("replay:", res[0] if res else "property holds on this input now")
